@@ -601,6 +601,12 @@ def subt_acceptance(
     if move == "wf":
         intf[2] = ens_set["tis_set"].get("interface_cap", intf[2])
     trial_path.weight = compute_weight(trial_path, intf, move)
+    if move == "wf" and trial_path.weight == 0:
+        # No frame on a valid sub-path in [interface, cap), e.g. when a
+        # frame sits exactly on the cap: the path has zero weight in this
+        # ensemble and can not be accepted.
+        trial_path.status = "NSG"
+        return False, trial_path
 
     if set(start_cond) != set(trial_path.get_start_point(intf[0], intf[2])):
         trial_path = trial_path.reverse(engine.order_function)
